@@ -245,7 +245,20 @@ func (o *Obligation) asserts(sliced bool, extra ...*Term) []*Term {
 	if sliced {
 		sl = sliceCOI(asserts, len(extra)+2)
 	}
-	sl = elimDiv(sl)
+	{
+		// the definitions elimDiv adds go before the roots (path condition, negated
+		// goal), which must stay last: goal-directed instantiation seeds from them
+		roots := len(extra) + 2
+		n := len(sl)
+		ed := elimDiv(sl)
+		if len(ed) > n && n >= roots {
+			out := append([]*Term{}, ed[:n-roots]...)
+			out = append(out, ed[n:]...)
+			out = append(out, ed[n-roots:n]...)
+			ed = out
+		}
+		sl = ed
+	}
 	if !o.MustSat {
 		// skolemise every assertion: afterwards all quantifiers are positive
 		// universals and every witness is a visible constant
@@ -601,6 +614,7 @@ func RunCheck(opts *CheckOpts) int {
 	var vacuous []string
 	nObl, nDis := 0, 0
 	var samples []any
+	var slow []any
 	var knownLines []string
 	solverWins := map[string]int{}
 	var totalMs, maxMs int64
@@ -640,6 +654,12 @@ func RunCheck(opts *CheckOpts) int {
 			totalMs += r.Res.Ms
 			if r.Res.Ms > maxMs {
 				maxMs = r.Res.Ms
+			}
+			if r.Res.Ms >= 2000 {
+				slow = append(slow, map[string]any{"obligation": o.Name, "ms": r.Res.Ms, "solver": r.Res.Solver})
+				if os.Getenv("VP_SLOW") != "" {
+					fmt.Printf("SLOW %s %dms %s\n", o.Name, r.Res.Ms, r.Res.Solver)
+				}
 			}
 		}
 		switch r.Status {
@@ -894,6 +914,20 @@ func decide(o *Obligation, cfg *SolverCfg, known []KnownFinding, prop string, op
 			r.Status = "proved"
 			r.Res = res3
 			return r
+		}
+		if res3.Status != "sat" && !cfg.CrossCheck {
+			// last resort before calling it undecided (a loaded machine must not turn a
+			// slow proof into an alarm): once more with eight times the limit
+			cfg8 := *cfg
+			cfg8.TimeoutS *= 8
+			cfg8.FirstS *= 8
+			res8 := Solve(&cfg8, o.Script(ws...), o.Name+"+retry8")
+			if res8.Status == "unsat" {
+				r.Status = "proved"
+				r.Res = res8
+				return r
+			}
+			res3 = res8
 		}
 		r.Res = res3
 		r.Status = "undecided"
